@@ -162,7 +162,9 @@ StepClauses(pre, ev, o, out, f, g2) ==
   \* --- state clauses
   \cup C03(f, pre.s.g, d)
   \cup If(sound /\ ~UniqueTypes(f), "C11:duplicate_types")
-  \cup (IF sound THEN C04(f, g2) ELSE {})
+  \* (two live ranges that overlap, or a live range outside the file, cannot both / at all hold
+  \* the bytes that were stored: the frame condition is broken together with C03)
+  \cup (IF sound THEN C04(f, g2) ELSE If(~NoOverlap(f) \/ ~RangesOK(f) \/ d.flen # FileLen(f), "C04:content"))
   \cup (IF sound THEN C09(f, g2) ELSE {})
   \cup (IF sound /\ pre.s.g.compact /\ ok /\ o.op = "add" /\ d.flen # pre.flen + o.b.sz THEN {"C09:grow_exact"} ELSE {})
   \cup (IF sound /\ pre.s.g.compact /\ ok /\ o.op = "remove" /\ HasType(pre.s.f, o.t)
